@@ -227,8 +227,15 @@ impl<Effect, Event> Command<Effect, Event> {
         //
         // Note that there is an exception: the task may have used the waker and dropped it,
         // making it ready, rather than abandoned.
+        //
+        // The count must be read _before_ the flag: a waker sets `woken` before it is dropped,
+        // so once we see that no other copy is left, every wake-up that happened on another
+        // thread is visible in the flag. Reading them the other way round can miss a wake-up
+        // which lands between the two reads, and evict a task that was just woken.
+        let waker_count = Arc::strong_count(&arc_waker);
+        std::sync::atomic::fence(Ordering::Acquire);
         let task_is_ready = arc_waker.woken.load(Ordering::Acquire);
-        if result == TaskState::Suspended && !task_is_ready && Arc::strong_count(&arc_waker) < 2 {
+        if result == TaskState::Suspended && !task_is_ready && waker_count < 2 {
             return TaskState::Cancelled;
         }
 
